@@ -340,6 +340,101 @@ Definition parse_duration (s : string) : option Z :=
        end.
 Local Close Scope N_scope.
 
+(* ------------------------------------------------------------------------ JSON string literals (the text level) *)
+Local Open Scope N_scope.
+Definition hex_val (c : ascii) : option N :=
+  let n := N_of_ascii c in
+  if (N.leb 48 n && N.leb n 57)%bool then Some (n - 48)
+  else if (N.leb 65 n && N.leb n 70)%bool then Some (n - 55)
+  else if (N.leb 97 n && N.leb n 102)%bool then Some (n - 87)
+  else None.
+(* UTF-8 of a code point of the basic plane that is not a surrogate (those come in pairs: outside this model) *)
+Definition utf8 (cp : N) : option string :=
+  if N.ltb cp 128 then Some (String (ascii_of_N cp) "")
+  else if N.ltb cp 2048 then Some (String (ascii_of_N (192 + cp / 64)) (String (ascii_of_N (128 + cp mod 64)) ""))
+  else if (N.leb 55296 cp && N.leb cp 57343)%bool then None
+  else Some (String (ascii_of_N (224 + cp / 4096)) (String (ascii_of_N (128 + (cp / 64) mod 64)) (String (ascii_of_N (128 + cp mod 64)) ""))).
+(* the string a JSON string literal body denotes; None: not a valid body (raw control character, raw quote, bad escape) *)
+Fixpoint unescape (s : string) : option string :=
+  match s with
+  | EmptyString => Some EmptyString
+  | String c r =>
+    if Ascii.eqb c "\"%char then
+      match r with
+      | String e r1 =>
+        let simple (x : ascii) := option_map (String x) (unescape r1) in
+        if Ascii.eqb e """"%char then simple """"%char
+        else if Ascii.eqb e "\"%char then simple "\"%char
+        else if Ascii.eqb e "/"%char then simple "/"%char
+        else if Ascii.eqb e "b"%char then simple (ascii_of_N 8)
+        else if Ascii.eqb e "f"%char then simple (ascii_of_N 12)
+        else if Ascii.eqb e "n"%char then simple (ascii_of_N 10)
+        else if Ascii.eqb e "r"%char then simple (ascii_of_N 13)
+        else if Ascii.eqb e "t"%char then simple (ascii_of_N 9)
+        else if Ascii.eqb e "u"%char then
+          match r1 with
+          | String h1 (String h2 (String h3 (String h4 r2))) =>
+            match hex_val h1, hex_val h2, hex_val h3, hex_val h4 with
+            | Some a, Some b, Some c', Some d =>
+              match utf8 (((a * 16 + b) * 16 + c') * 16 + d), unescape r2 with
+              | Some u, Some t => Some (u ++ t)
+              | _, _ => None
+              end
+            | _, _, _, _ => None
+            end
+          | _ => None
+          end
+        else None
+      | EmptyString => None
+      end
+    else if (Ascii.eqb c """"%char || N.ltb (N_of_ascii c) 32)%bool then None
+    else option_map (String c) (unescape r)
+  end.
+
+
+(* the literal body encoding/json WRITES for a string (valid UTF-8 assumed: invalid bytes would be replaced by U+FFFD):
+   quote and backslash escaped, \n \r \t, the other control characters and < > & as \u00XX, U+2028 / U+2029 as \u2028 / \u2029 *)
+Definition hex_char (d : N) : ascii := if N.ltb d 10 then ascii_of_N (48 + d) else ascii_of_N (87 + d).
+Definition bs : ascii := ascii_of_N 92.
+Definition u00 (n : N) (r : string) : string :=
+  String bs (String "u" (String "0" (String "0" (String (hex_char (n / 16)) (String (hex_char (n mod 16)) r))))).
+Definition esc_byte (c : ascii) (r : string) : string :=
+  let n := N_of_ascii c in
+  if N.eqb n 34 then String bs (String """" r)
+  else if N.eqb n 92 then String bs (String bs r)
+  else if N.eqb n 10 then String bs (String "n" r)
+  else if N.eqb n 13 then String bs (String "r" r)
+  else if N.eqb n 9 then String bs (String "t" r)
+  else if (N.ltb n 32 || N.eqb n 60 || N.eqb n 62 || N.eqb n 38)%bool then u00 n r
+  else String c r.
+Fixpoint escape (s : string) : string :=
+  match s with
+  | EmptyString => EmptyString
+  | String c r =>
+    match r with
+    | String c2 (String c3 r3) =>
+      if (N.eqb (N_of_ascii c) 226 && N.eqb (N_of_ascii c2) 128 && (N.eqb (N_of_ascii c3) 168 || N.eqb (N_of_ascii c3) 169))%bool
+      then String bs (String "u" (String "2" (String "0" (String "2" (String (hex_char (N_of_ascii c3 - 160)) (escape r3))))))
+      else esc_byte c (escape r)
+    | _ => esc_byte c (escape r)
+    end
+  end.
+(* a textual post-processing of the encoded text: every occurrence of the six characters `pat` replaced by one character *)
+Fixpoint replace_seq (fuel : nat) (pat : string) (by_ : ascii) (s : string) : string :=
+  match fuel with
+  | O => s
+  | S f =>
+    match s with
+    | EmptyString => EmptyString
+    | String c r => if String.prefix pat s then String by_ (replace_seq f pat by_ (substring (String.length pat) (String.length s) s))
+                    else String c (replace_seq f pat by_ r)
+    end
+  end.
+Definition readable_json (s : string) : string :=
+  let rep p b t := replace_seq (String.length t) (String bs p) b t in
+  rep "u0026" "&"%char (rep "u003e" ">"%char (rep "u003c" "<"%char s)).
+Local Close Scope N_scope.
+
 Definition string_to_Z (s : string) : option Z :=
   match NilZero.int_of_string s with Some i => Some (Z.of_int i) | None => None end.
 
